@@ -383,3 +383,83 @@ func VerifH_C05_cloneSeesWholeLayer() {
 	vr.Assert(err == nil && attr.Size == 1, "file-of-the-layer-is-found")
 	vr.Reach("end")
 }
+
+// C05/H4: both stores accept or reject the same TOCs, also ill-formed ones: hardlinks to a missing name, to a
+// directory, to themselves, to their own ancestor; a chunk entry with no file before it. When both accept, they expose
+// the same tree. (A file name that is also used as a parent directory, and chunk tables that do not fit their file,
+// are C04's subject and excluded here.)
+func VerifH_C05_acceptRejectAlike() {
+	maxEntries := 3
+	n := 1 + vr.Len("entries", maxEntries-1)
+	var ents []*estargz.TOCEntry
+	used := map[string]bool{}
+	offset := int64(100)
+	forward := false // some hardlink names an entry that comes later in the TOC
+	for i := 0; i < n; i++ {
+		name := verifDiffNames[vr.Choice("name", len(verifDiffNames))]
+		vr.Assume(!used[name]) // duplicates are H2's subject
+		e := &estargz.TOCEntry{Name: name, Mode: 0644}
+		nk := 3
+		if i == 0 {
+			nk = 4
+		}
+		switch vr.Choice("kind", nk) {
+		case 0:
+			e.Type = "dir"
+		case 1:
+			e.Type = "reg"
+			e.Size = 1
+			e.Offset = offset
+			e.ChunkDigest = "sha256:c0"
+			offset += 100
+		case 2:
+			e.Type = "hardlink"
+			e.LinkName = verifDiffNames[vr.Choice("linkTarget", len(verifDiffNames))]
+			if !used[e.LinkName] && e.LinkName != name {
+				forward = true // resolved below: only if that name does appear later
+			}
+		default: // a chunk entry at the very top of the TOC
+			e.Type = "chunk"
+			e.Offset = offset
+			e.ChunkOffset = 0
+			e.ChunkSize = 1
+			offset += 100
+		}
+		used[name] = true
+		ents = append(ents, e)
+	}
+	isForward := false
+	if forward {
+		for i, e := range ents {
+			if e.Type != "hardlink" {
+				continue
+			}
+			for _, later := range ents[i+1:] {
+				if later.Name == e.LinkName {
+					isForward = true
+				}
+			}
+		}
+	}
+	// a regular file or link must not also be the parent directory of another entry
+	for _, f := range ents {
+		if f.Type == "dir" {
+			continue
+		}
+		for _, e := range ents {
+			vr.Assume(!(len(e.Name) > len(f.Name) && e.Name[:len(f.Name)+1] == f.Name+"/"))
+		}
+	}
+	sr := io.NewSectionReader(verifZeroAt{}, 0, 10000)
+	mem, memErr, dbr, dbErr := verifOpenBoth(ents, sr)
+	// F-C05-5 (open): a hardlink whose destination is listed later in the TOC is resolved by the memory store (two
+	// passes) and refused by the db store (one streaming pass).
+	vr.Known("F-C05-5", isForward)
+	vr.Assert((memErr == nil) == (dbErr == nil), "both-stores-accept-or-both-reject")
+	if memErr != nil || dbErr != nil {
+		vr.Reach("rejected")
+		return
+	}
+	verifSameTree(mem, dbr, mem.RootID(), dbr.RootID(), 4)
+	vr.Reach("end")
+}
